@@ -105,11 +105,16 @@ inductive Out
   | panic
 deriving DecidableEq, Repr
 
-/-- the quantifier of the property: item sizes ≥ 0, capacities ≥ 0 -/
+/-- The part of the property's quantifier the theorems cover: item sizes ≥ 0, capacities ≥ 0 — and both below 2^62,
+so that the `int64` counter `size` (at most capacity + one item before the check) cannot wrap around. The property
+text has no such bound; inside it the code is wrong (`witness_size_counter_overflow` in `Nv.Props.C04`). -/
 def Op.sizeOk : Op → Bool
-  | .set _ _ s | .setIfAbsent _ _ s | .setGetRemoved _ _ s => decide (0 ≤ s)
-  | .setCapacity c => decide (0 ≤ c)
+  | .set _ _ s | .setIfAbsent _ _ s | .setGetRemoved _ _ s => decide (0 ≤ s) && decide (s < 2 ^ 62)
+  | .setCapacity c => decide (0 ≤ c) && decide (c < 2 ^ 62)
   | _ => true
+
+/-- `int64` arithmetic: the value of the mathematical result after two's-complement wrap-around -/
+def wrap64 (x : Int) : Int := x.bmod (2 ^ 64)
 
 def total (l : List Entry) : Int := (l.map (·.size)).sum
 
@@ -138,7 +143,7 @@ def evictLoop (cmp : Cmp) (cap : Int) (dec : Entry → Int) : List Entry → Int
   | [], size => ⟨[], size, [], over cmp size cap⟩
   | e :: rest, size =>
     if over cmp size cap then
-      let r := evictLoop cmp cap dec rest (size - dec e)
+      let r := evictLoop cmp cap dec rest (wrap64 (size - dec e))
       ⟨r.kept, r.size, e :: r.evicted, r.panicked⟩
     else ⟨e :: rest, size, [], false⟩
 
@@ -158,13 +163,13 @@ def szOf : Kind → Int → Int
   | .tiny, _ => 1
 
 def addNew (c : Cfg) (kd : Kind) (s : Lru) (k v : Nat) (sz : Int) : Lru × List Nat × Bool :=
-  checkCapacity c kd { s with list := ⟨k, v, szOf kd sz⟩ :: s.list, size := s.size + szOf kd sz }
+  checkCapacity c kd { s with list := ⟨k, v, szOf kd sz⟩ :: s.list, size := wrap64 (s.size + szOf kd sz) }
 
 /-- `updateInPlace` (+ `…AndGetRemoved` for sized; tiny's `SetAndGetRemoved` returns nil on update) -/
 def updateInPlace (c : Cfg) (kd : Kind) (s : Lru) (old : Entry) (v : Nat) (sz : Int) : Lru × List Nat × Bool :=
   match kd with
   | .sized =>
-    let s1 : Lru := { s with list := ⟨old.key, v, sz⟩ :: removeKey old.key s.list, size := s.size + (sz - old.size) }
+    let s1 : Lru := { s with list := ⟨old.key, v, sz⟩ :: removeKey old.key s.list, size := wrap64 (s.size + wrap64 (sz - old.size)) }
     if c.updateChecks then checkCapacity c kd s1 else (s1, [], false)
   | .tiny =>
     let s1 : Lru := { s with list := ⟨old.key, v, 1⟩ :: removeKey old.key s.list }
@@ -205,7 +210,7 @@ def step (c : Cfg) (kd : Kind) (s : Lru) : Op → Lru × Out
   | .exist k => (s, .bool (find? k s.list).isSome)
   | .delete k =>
     match find? k s.list with
-    | some e => ({ s with list := removeKey k s.list, size := s.size - decOf kd e }, .bool true)
+    | some e => ({ s with list := removeKey k s.list, size := wrap64 (s.size - decOf kd e) }, .bool true)
     | none => (s, .bool false)
   | .clear => ({ s with list := [], size := 0 }, .unit)
   | .setCapacity cap =>
